@@ -404,7 +404,11 @@ func c17Disruption(c *Check) {
 			// the Progress is that of m.From
 			base := storeBase(fi, st)
 			ok := strings.Contains(base.Key(), "GetFrom()")
-			c.Result(ok, "C17.Q3", "RecentActive = true", fnName(st.Fn), site, "set for the sender of the message being handled", base.Key())
+			// and only for messages that really come from that peer over the network
+			lm := fi.Sym(stepLeader.Params[1])
+			f := fi.FactsAt(st.Instr)
+			okType := f.EnumFact(CallSym(getType, lm), p.ConstVal("raftpb", "MsgAppResp")) == 1 || f.EnumFact(CallSym(getType, lm), p.ConstVal("raftpb", "MsgHeartbeatResp")) == 1
+			c.Result(ok && okType, "C17.Q3", "RecentActive = true", fnName(st.Fn), site, "set for the sender of a MsgAppResp / MsgHeartbeatResp (local reports about a peer such as MsgUnreachable are not evidence of liveness)", base.Key()+" {"+strings.Join(f.Describe(), "; ")+"}")
 		case st.Fn == p.Method("raft", "raft", "becomeLeader"):
 			base := storeBase(fi, st)
 			ok := strings.Contains(base.Key(), ".id]")
